@@ -144,7 +144,7 @@ func (fx *FuncExec) execCall(st *State, instr ssa.Instruction, c *ssa.CallCommon
 				}
 				for _, a := range cs.Asserts {
 					// evaluated in the discovery passes too (heap keys), obliged only in the real pass
-					fx.oblige("assert@call", st, fx.evalBool(env, a), fmt.Sprintf("at call %s#%d: %s", short, ord, a.Text), instr.Pos())
+					fx.obligeClause("assert@call", st, env, a, fmt.Sprintf("at call %s#%d: %s", short, ord, a.Text), instr.Pos())
 				}
 				fx.usedCallSites[cs] = true
 			}
